@@ -171,6 +171,11 @@ impl<T: Bounded> BVH<T> {
                 completed.insert(parent_id, parent_node);
             }
         }
+        // Un único nodo terminal (todos los elementos caben en una hoja): es la raíz
+        if let Some(TreeElement(_, Leaf, _, None, Some(elements))) = node_list.pop() {
+            let aabb = elements.aabb();
+            return Self::new(Some(BVHNode::Leaf { aabb, elements }));
+        }
         Self::new(completed.remove(&0_usize))
     }
 
